@@ -159,8 +159,10 @@ func (l *Gpos4_1) apply(ctx *Context, a, b int) int {
 	for i := p; i < a; i++ {
 		dx -= seq[i].Advance
 	}
-	seq[a].XOffset += dx
-	seq[a].YOffset += dy
+	// Align the two attachment points: the mark is placed relative to the
+	// position where the base glyph is drawn.
+	seq[a].XOffset = seq[p].XOffset + dx
+	seq[a].YOffset = seq[p].YOffset + dy
 	return a + 1
 }
 
